@@ -37,6 +37,8 @@ type FifoBuffer[T any] struct {
 	cond sync.Cond
 
 	buffer []T
+	// set by ReleaseGoroutines: from then on Pop/PopMultiple never block on an empty buffer
+	released bool
 }
 
 func NewFifoBuffer[T any]() (result FifoBuffer[T]) {
@@ -60,6 +62,10 @@ func (this *FifoBuffer[T]) PopMultiple(numberToPop uint) (result []T) {
 	defer this.cond.L.Unlock()
 
 	for len(this.buffer) == 0 {
+		// ReleaseGoroutines may have been called before we got here: nobody would wake us up anymore
+		if this.released {
+			return
+		}
 		this.cond.Wait()
 		// this check is used when ReleaseGoroutines is called on waiting goroutine
 		if len(this.buffer) == 0 {
@@ -82,6 +88,7 @@ func (this *FifoBuffer[T]) Length() int {
 
 func (this *FifoBuffer[T]) ReleaseGoroutines() {
 	this.cond.L.Lock()
+	this.released = true
 	this.cond.Broadcast()
 	this.cond.L.Unlock()
 }
